@@ -199,3 +199,39 @@ package ge25519
 //@   requires red4(*p) && tvalid(*p) && red4(*q) && tvalid(*q)
 //@   modifies nothing
 //@   ensures result == isneutral(smul8(psub(P3(*p), P3(*q))))
+
+// ---------------- pack & unpack ----------------
+
+//@ ufun encpt(Pt) Bytes
+//@ ufun decpt(Bytes) Pt
+//@ ufun decodable(Bytes) Bool
+
+//@ func Pack(r, p)
+//@   requires len(r) >= 32 && red3(*p)
+//@   modifies r[0:32]
+//@   cut before call Contract#1 havoc : mag(tx, RED) && mag(ty, RED) && feq(fval(tx), X(*p) * pow(Z(*p), P - 2), P) && feq(fval(ty), Y(*p) * pow(Z(*p), P - 2), P)
+//@   ensures le(r[0:32]) == (Y(*p) * pow(Z(*p), P - 2)) % P + (((X(*p) * pow(Z(*p), P - 2)) % P) % 2) << 255
+//@   assume-ensures bytesOf(r[0:32]) == encpt(P3(*p))
+
+//@ spec UU(y) = pow(y, 2) - 1
+//@ spec VV(y) = D * pow(y, 2) + 1
+
+//@ func UnpackNegativeVartime(r, p)
+//@   requires len(p) >= 32
+//@   modifies *r
+//@   ensures result ==> (mag(r.x, RED) && mag(r.y, CANON) && isone(r.z) && mag(r.t, RED) && tvalid(*r))
+//@   ensures result ==> fval(r.y) == le(p[0:32]) % (1<<255)
+//@   ensures result ==> cong(VV(fval(r.y)) * pow(X(*r), 2), UU(fval(r.y)), P)
+//@   ensures result ==> (fe(r.x) == 0 || fe(r.x) % 2 != p[31] >> 7)
+//@   assume-ensures result == decodable(bytesOf(p[0:32]))
+//@   assume-ensures result ==> P3(*r) == pneg(decpt(bytesOf(p[0:32])))
+
+//@ func UnpackVartime(r, p)
+//@   requires len(p) >= 32
+//@   modifies *r
+//@   ensures result ==> (mag(r.x, RED) && mag(r.y, CANON) && isone(r.z) && mag(r.t, RED) && tvalid(*r))
+//@   ensures result ==> fval(r.y) == le(p[0:32]) % (1<<255)
+//@   ensures result ==> cong(VV(fval(r.y)) * pow(X(*r), 2), UU(fval(r.y)), P)
+//@   ensures result ==> (fe(r.x) == 0 || fe(r.x) % 2 == p[31] >> 7)
+//@   assume-ensures result == decodable(bytesOf(p[0:32]))
+//@   assume-ensures result ==> P3(*r) == decpt(bytesOf(p[0:32]))
